@@ -17,6 +17,7 @@ pub mod c16;
 pub mod c17;
 pub mod c18;
 pub mod c19;
+pub mod c20;
 pub mod common;
 
 use crate::report::Report;
@@ -41,6 +42,8 @@ pub fn run(id: &str, tier: &str) -> i32 {
         "C16" => c16::run(&rep),
         "C17" => c17::run(&rep),
         "C18" => c18::run(&rep),
+        "C19" => c19::run(&rep),
+        "C20" => c20::run(&rep),
         "C14" => c14::run(&rep),
         _ => {
             eprintln!("unknown property {id}");
